@@ -165,8 +165,28 @@ def generate(rng, idx, tier, variant):
         spec['parent'] = {'aliases': [[k_, v_] for k_, v_ in pal.items() if k_ != v_], 'instantiate_first': rng.random() < 0.7}
     ops = []
     base = 100
+    pref_targets = {resolve(al, p_) for p_ in pref}
+    fresh = ['NEW1', 'new_2', 'NEW3', '_new4']
     for _ in range(rng.randint(3, 16)):
         nm = rng.choice(names)
+        r_ = rng.random()
+        if r_ < 0.05 and fresh:
+            # an alias added on the instance after construction (`model.aliases['x'] = 'C'`): from then on a name like the
+            # class's own aliases - for every access path, for exports, and on every copy of the object
+            a_ = fresh.pop()
+            ops.append({'op': 'add_alias', 'name': nm, 'via': a_})
+            handles[nm] = handles[nm] + [a_]
+            continue
+        if r_ < 0.09 and len(set(pref)) == len(pref) and len({resolve(al, p_) for p_ in pref}) == len(pref) and nm not in pref_targets:
+            # a preference declared on the instance (`model.preferred_names.append(...)`) for a variable that has none yet
+            h_ = rng.choice(handles[nm])
+            ops.append({'op': 'prefer', 'name': nm, 'via': h_})
+            pref_targets.add(nm)
+            continue
+        if r_ < 0.13:
+            # the object replaced by a copy of itself: instance-level aliases and preferences travel with it
+            ops.append({'op': 'recopy', 'name': nm, 'via': nm, 'route': rng.choice(['copy', 'copy.copy', 'deepcopy'])})
+            continue
         via = rng.choice(handles[nm])
         base += 11
         kind = rng.choice(['setattr', 'setattr', 'setitem', 'setitem_label', 'setitem_slice', 'set_pos', 'replace_values', 'get', 'get', 'solve', 'to_dataframe', 'contains_dir', 'near_miss'])
@@ -488,6 +508,7 @@ def execute(schedule, ctx):
         chk('no-extra-attributes', list(A.__dict__['index']) == list(K.__dict__['index']), {'aliased': list(A.__dict__['index'])[:12], 'canonical': list(K.__dict__['index'])[:12], 'when': when})
 
     storage_ok('construction')
+    pref_now = list(spec['preferred'])  # (instance-level additions join these as the history goes)
 
     for step, op in enumerate(schedule['ops']):
         ctx.step = step
@@ -514,6 +535,38 @@ def execute(schedule, ctx):
                 return ('ok', canon(v.tolist()))
             return ('ok', canon(v))
 
+        if kind == 'add_alias':
+            A.aliases[via] = nm
+            al[op['via']] = op['name']
+            ctx.probe('instance-level:alias-added')
+            ctx.log(step, kind, op['via'], op['name'])
+            ctx.outcome(kind, 'ok')
+            storage_ok(kind)
+            continue
+        if kind == 'prefer':
+            A.preferred_names.append(via)
+            pref_now.append(op['via'])
+            ctx.probe('instance-level:preference-added')
+            ctx.log(step, kind, op['via'], op['name'])
+            ctx.outcome(kind, 'ok')
+            continue
+        if kind == 'recopy':
+            import copy as _copy
+
+            try:
+                A2 = A.copy() if op['route'] == 'copy' else _copy.copy(A) if op['route'] == 'copy.copy' else _copy.deepcopy(A)
+                K2 = K.copy() if op['route'] == 'copy' else _copy.copy(K) if op['route'] == 'copy.copy' else _copy.deepcopy(K)
+            except Exception as e:
+                chk('recopy/works', False, {'exc': type(e).__name__, 'msg': str(e)[:160], 'route': op['route']})
+                continue
+            A, K = A2, K2
+            ctx.probe('history:replaced-by-a-copy:' + op['route'])
+            ok, bad = _same_state(A, K)
+            chk('recopy/same-effect', ok, {'differs': bad, 'route': op['route']})
+            storage_ok(kind)
+            ctx.log(step, kind, op['route'])
+            ctx.outcome(kind, 'ok')
+            continue
         if kind in ('setattr', 'setitem'):
             v = RC.make_value(op['value'], n)
             vA = vK = v
@@ -629,7 +682,7 @@ def execute(schedule, ctx):
                 ctx.probe('strict-refuses-misspelt-alias-or-name')
                 chk('near_miss/refused-under-strict', ra == ('exc', 'AttributeError') or ra == ('exc', 'NotImplementedError'), {'typo': typo, 'aliased': ra, 'canonical': rk})
         elif kind == 'to_dataframe':
-            do_dataframe(A, K, spec, op, names, chk, ctx)
+            do_dataframe(A, K, dict(spec, aliases=[[k_, v_] for k_, v_ in al.items()], preferred=list(pref_now)), op, names, chk, ctx)
             ra = rk = ('ok', None)
         elif kind == 'contains_dir':
             try:
